@@ -68,6 +68,11 @@ def _many_type_gfcalcs():
         for name, c, cut in (("obl13", obl, 3.1), ("tric12", tric, 1.75), ("tric15", tric, 2.0), ("mono2x9", mono2, 1.4)):
             jn, sl = c.jumpnetwork(0, cut), c.sitelist(0)
             _MANY[name] = (c, sl, jn)
+        # a DISCONNECTED network whose pieces are symmetry-equivalent: diamond with second-neighbour jumps only
+        # (each fcc sublattice on its own; two diffusive zero modes at the Gamma point instead of one)
+        dia = crystal.Crystal(np.array([[0, .5, .5], [.5, 0, .5], [.5, .5, 0]]), [np.zeros(3), np.array([.25, .25, .25])])
+        jn2 = [jl for jl in dia.jumpnetwork(0, 0.72) if all(i == j for (i, j), dx in jl)]
+        _MANY["diamond2nn"] = (dia, dia.sitelist(0), jn2)
     return _MANY
 
 
@@ -274,7 +279,7 @@ class Run(RunBase):
                 return {"op": "regen", "N": rng.choice(self.w["ranges"])}
             return {"op": "regen", "N": self.w["ranges"][0]}
         if kind == "regrid":
-            return {"op": "regrid", "n": rng.choice(self.w["grids"])}
+            return {"op": "regrid", "n": rng.choice(self.w["grids"]), "adopt": rng.random() < 0.8}
         if kind == "foreign":
             return {"op": "foreign", "k": rng.randrange(npool), "pt": rng.randrange(16),
                     "scribble": rng.random() < 0.5, "x": rng.choice((2.0, -1.0, 0.0)), "accessor": rng.random() < 0.3,
@@ -518,18 +523,32 @@ class Run(RunBase):
         return "N={}".format(N)
 
     def op_regrid(self, index, op):
+        """GFcalculator(n). The method records NGFmax = n (and clears the cache) BEFORE the caller decides whether
+        to adopt the calculator it returns, and returns the calculator already held when n equals the recorded
+        value. Both are legal call sequences, so the model tracks the k-mesh of the calculator actually held
+        (self.NGF) separately from the recorded label (read from the object):
+          adopt=True : calc.GFcalc = calc.GFcalculator(n)      adopt=False: the result is inspected and discarded"""
         n = int(op["n"])
         if n not in self.w["grids"]:
             return "skip"
-        # a rebuild happens whenever the calculator's own NGFmax differs from n -- which it also does after the
-        # failing accessor call GFcalculator() reset it to 0 (DESIGN 6, O2); ask the calculators, not the model
-        if n != self.NGF or any(getattr(calc, "NGFmax", n) != n for calc, _ in self.targets()):
-            self.faults["re-gridded-in-place"] += 1
-            self.rebuilt = True
+        adopt = bool(op.get("adopt", True))
+        labels = [getattr(calc, "NGFmax", None) for calc, _ in self.targets()]
+        created = any(lab != n for lab in labels)       # a new calculator is built (and the cache cleared)
         for calc, _ in self.targets():
-            calc.GFcalc = calc.GFcalculator(n)
-        self.NGF = n
-        return "NGF={}".format(n)
+            new = calc.GFcalculator(n)
+            if adopt:
+                calc.GFcalc = new
+        if created and adopt:
+            if n != self.NGF:
+                self.faults["re-gridded-in-place"] += 1
+            # after the failing accessor call GFcalculator() reset the label to 0 (DESIGN 6, O2) an equal n rebuilds too
+            self.rebuilt = True
+            self.NGF = n
+        elif created:
+            self.faults["k-mesh-label-without-adoption"] += 1      # label n, calculator unchanged
+        elif adopt and n != self.NGF:
+            self.probes["regrid-returned-the-held-calculator"] += 1  # label already n: the held calculator came back
+        return "NGF={} label={}".format(self.NGF, n)
 
     def op_foreign(self, index, op):
         """The user pokes the embedded GF calculator between Lij calls."""
@@ -823,8 +842,22 @@ class Run(RunBase):
         elif what == "gfcalc-many":
             many = _many_type_gfcalcs()
             name = sorted(many)[arg % len(many)]
-            c, sl, jn = many[name]
+            c, sl, jn0 = many[name]
+            # the jump network and site list handed to the constructor are the caller's own objects; in half of the
+            # cases the caller edits them after construction and before saving (the calculator was finished with them)
+            jn = [[((i, j), dx.copy()) for (i, j), dx in jl] for jl in jn0]
+            sl = [list(x) for x in sl]
             g = GFcalc.GFCrystalcalc(c, 0, sl, jn, 2)
+            if arg % 2:
+                for jl in jn:
+                    for ij, dx in jl:
+                        dx[...] = np.round(dx * 1.7, 2)
+                    jl.reverse()
+                jn.append(jn[0])
+                for x in sl:
+                    x.reverse()
+                self.faults["caller-edits-its-jump-network-before-save"] += 1
+            jn = jn0
             g2 = self.roundtrip(g.addhdf5, lambda grp: GFcalc.GFCrystalcalc.loadhdf5(c, grp))
             pre, ene = np.ones(len(sl)), np.array([0.1 * i for i in range(len(sl))])
             preT = np.array([1.0 + 0.05 * rnd.random() for _ in jn])
@@ -833,8 +866,10 @@ class Run(RunBase):
             for x in (g, g2):
                 try:
                     x.SetRates(pre, ene, preT, eneT)
-                    outs.append(("ok", x.Diffusivity(), [x(0, len(x.invmap) - 1, dx) for (i, j), dx in
-                                                         [jl[0] for jl in jn[:6]] if (i, j) == (0, len(x.invmap) - 1)]))
+                    last = len(x.invmap) - 1
+                    outs.append(("ok", x.Diffusivity(), [x(0, 0, np.zeros(c.dim))] +
+                                 [x(i, j, dx) for (i, j), dx in [jl[0] for jl in jn[:6]]] +
+                                 [x(0, last, dx) for (i, j), dx in [jl[0] for jl in jn[:6]] if (i, j) == (0, last)]))
                 except Exception as e:
                     outs.append(("exc", type(e).__name__))
             self.probes["gfcalc-{}-jump-types".format(len(jn))] += 1
